@@ -173,7 +173,7 @@ class BindSim:
                     op['how'] = rng.choice(['assign_attrs', 'isel', 'drop_attr', 'reorder', 'reorder'])
                     handles += 1
                 if kind == 'mutate':
-                    op['how'] = rng.choice(['pop_conventions', 'pop_markers', 'add_attr', 'pop_ems_version'])
+                    op['how'] = rng.choice(['pop_conventions', 'pop_markers', 'add_attr', 'pop_ems_version', 'add_variable', 'add_variable', 'drop_variable_in_place'])
                 ops.append(op)
                 if kind == 'register' and rng.random() < 0.5:
                     # plug-ins tend to be registered together (one import registers several classes)
@@ -796,6 +796,13 @@ def _bind_lifetime(ctx, dataset_descs, lt, penv=None):
                         ds.attrs.pop(m, None)
                 elif how == 'pop_ems_version':
                     ds.attrs.pop('ems_version', None)
+                elif how == 'add_variable':
+                    # ordinary xarray use of a dataset that may be bound already: a new variable assigned in place
+                    ds['extra_scalar'] = ((), 1.5)
+                    probe('variable_added_in_place')
+                elif how == 'drop_variable_in_place':
+                    if 'extra_scalar' in ds.variables:
+                        del ds['extra_scalar']
                 else:
                     ds.attrs['history'] = 'edited'
                 mutated[h] = mutated.get(h, 0) + 1
